@@ -6,6 +6,7 @@ package jobs
 
 import (
 	"context"
+	"encoding/json"
 	"errors"
 
 	"github.com/DataDog/datadog-go/v5/statsd"
@@ -79,7 +80,9 @@ type VerifC09Pipeline struct {
 // VerifC09StartPipeline starts FullSyncPipeline.sync in a goroutine and returns once the pipeline has
 // called sink.startFullSync and asks the source for the first page.
 // The sink object is the one of job n (shared with the direct calls): it is the identity of the job.
-func VerifC09StartPipeline(id string, vs *VerifC09Sink, store *server.Store, dm *server.DsManager) (*VerifC09Pipeline, error) {
+// onError is the trigger's `onError` JSON ("" = none), e.g. `[{"errorHandler":"log","maxItems":1}]`: the job is set up
+// the way job.Run does it (verifyErrorHandlers, instrumentErrorHandling wrapping the sink) before sync is called.
+func VerifC09StartPipeline(id string, vs *VerifC09Sink, store *server.Store, dm *server.DsManager, onError string) (*VerifC09Pipeline, error) {
 	src := &verifC09Source{cmd: make(chan verifC09Cmd), ready: make(chan struct{})}
 	pl := &FullSyncPipeline{PipelineSpec{
 		source:    src,
@@ -88,6 +91,17 @@ func VerifC09StartPipeline(id string, vs *VerifC09Sink, store *server.Store, dm 
 	}}
 	runner := &Runner{store: store, eventBus: server.NoOpBus(), statsdClient: &statsd.NoOpClient{}, logger: zap.NewNop().Sugar()}
 	j := &job{id: id, title: id, pipeline: pl, runner: runner, dsm: dm}
+	if onError != "" {
+		trigger := JobTrigger{TriggerType: TriggerTypeCron, JobType: JobTypeFull, Schedule: "@every 1h"}
+		if err := json.Unmarshal([]byte(onError), &trigger.ErrorHandlers); err != nil {
+			return &VerifC09Pipeline{over: true}, err
+		}
+		if err := verifyErrorHandlers(trigger, id, id); err != nil {
+			return &VerifC09Pipeline{over: true}, err
+		}
+		j.errorHandlers = trigger.ErrorHandlers
+		j.instrumentErrorHandling()
+	}
 	p := &VerifC09Pipeline{src: src, done: make(chan error, 1)}
 	go func() {
 		_, err := pl.sync(j, context.Background())
